@@ -923,3 +923,141 @@ Theorem C08_zbdd_level_swap_chain_found : forall s i,
   exists ids, zchain_ids (level_swap_z s i) = Some ids /\ length ids = nlevels s.
 Proof. exact level_swap_z_found. Qed.
 Print Assumptions C08_zbdd_level_swap_chain_found.
+
+(** ** TDD level swaps and reorderings (package C08z, part T: Mgr/LevelSwapT*.v)
+
+    Ternary nodes (children true, unknown, false), rule "all three children equal", interpreter [semk].
+    A variable assignment is ternary: [a v] = 0 (true), 1 (unknown), 2 (false); [teval_vars s e a] is the
+    value code (0 False, 1 Unknown, 2 True) of [e] under [a]. *)
+From OxiVerif Require Import Mgr.LevelSwapT Mgr.LevelSwapTProofs Mgr.LevelSwapTOrder.
+
+Theorem C08_tdd_level_swap_wf : forall s i,
+  WF s -> s_kind s = KTdd -> S i < nlevels s -> WF (level_swap_t s i).
+Proof. exact level_swap_t_wf. Qed.
+Print Assumptions C08_tdd_level_swap_wf.
+
+Theorem C08_tdd_level_swap_maps : forall s i,
+  WF s -> s_kind s = KTdd -> S i < nlevels s ->
+  s_l2v (level_swap_t s i) = swap_adj i (s_l2v s)
+  /\ s_v2l (level_swap_t s i) = map (swap_idx i) (s_v2l s)
+  /\ (forall l, nth_error (s_l2v (level_swap_t s i)) l = nth_error (s_l2v s) (swap_idx i l))
+  /\ (forall v, nth_error (s_v2l (level_swap_t s i)) v = option_map (swap_idx i) (nth_error (s_v2l s) v)).
+Proof. exact level_swap_t_maps_all. Qed.
+Print Assumptions C08_tdd_level_swap_maps.
+
+Theorem C08_tdd_level_swap_handles : forall s i,
+  WF s -> s_kind s = KTdd -> S i < nlevels s ->
+  forall h, In h (s_handles s) ->
+    In h (s_handles (level_swap_t s i)) /\ ref_ok (level_swap_t s i) (eref (snd h)).
+Proof. exact level_swap_t_handles_both. Qed.
+Print Assumptions C08_tdd_level_swap_handles.
+
+Theorem C08_tdd_level_swap_untouched : forall s i,
+  WF s -> s_kind s = KTdd -> S i < nlevels s ->
+  forall id nd, find_node s id = Some nd -> nlevel nd <> i -> nlevel nd <> S i ->
+    find_node (level_swap_t s i) id = Some nd.
+Proof. exact level_swap_t_untouched. Qed.
+Print Assumptions C08_tdd_level_swap_untouched.
+
+Theorem C08_tdd_level_swap_untouched_rev : forall s i,
+  WF s -> s_kind s = KTdd -> S i < nlevels s ->
+  forall id nd, find_node (level_swap_t s i) id = Some nd -> nlevel nd <> i -> nlevel nd <> S i ->
+    find_node s id = Some nd.
+Proof. exact level_swap_t_untouched_rev. Qed.
+Print Assumptions C08_tdd_level_swap_untouched_rev.
+
+Theorem C08_tdd_level_swap_removed_only : forall s i,
+  WF s -> s_kind s = KTdd -> S i < nlevels s ->
+  forall id nd, find_node s id = Some nd -> find_node (level_swap_t s i) id = None ->
+  nlevel nd = S i /\ In id (dropped_children s i)
+  /\ referenced (swap_nodes_t s i) (s_handles s) id = false.
+Proof. exact level_swap_t_removed_only. Qed.
+Print Assumptions C08_tdd_level_swap_removed_only.
+
+Theorem C08_tdd_level_swap_child_ok : forall s i,
+  WF s -> s_kind s = KTdd -> S i < nlevels s ->
+  forall id nd e, find_node (level_swap_t s i) id = Some nd -> In e (nchildren nd) ->
+    ref_ok (level_swap_t s i) (eref e).
+Proof. exact level_swap_t_child_ok. Qed.
+Print Assumptions C08_tdd_level_swap_child_ok.
+
+Theorem C08_tdd_level_swap_sem_levels : forall s i,
+  WF s -> s_kind s = KTdd -> S i < nlevels s ->
+  forall e c, ref_ok s (eref e) -> ref_ok (level_swap_t s i) (eref e) -> choice_ok s c ->
+  sem_edge (level_swap_t s i) e (swap_choice i c) = sem_edge s e c.
+Proof. exact level_swap_t_sem_levels. Qed.
+Print Assumptions C08_tdd_level_swap_sem_levels.
+
+(* headline: every edge stored before and after denotes the same three-valued function of the variables *)
+Theorem C08_tdd_level_swap_sem_vars : forall s i,
+  WF s -> s_kind s = KTdd -> S i < nlevels s ->
+  forall e a, tasg_ok a -> ref_ok s (eref e) -> ref_ok (level_swap_t s i) (eref e) ->
+  teval_vars (level_swap_t s i) e a = teval_vars s e a.
+Proof. exact level_swap_t_sem_vars. Qed.
+Print Assumptions C08_tdd_level_swap_sem_vars.
+
+Theorem C08_tdd_level_swap_handles_vars : forall s i,
+  WF s -> s_kind s = KTdd -> S i < nlevels s ->
+  forall h a, tasg_ok a -> In h (s_handles s) ->
+  teval_vars (level_swap_t s i) (snd h) a = teval_vars s (snd h) a
+  /\ exists v, teval_vars s (snd h) a = Some v.
+Proof. exact level_swap_t_handles_vars. Qed.
+Print Assumptions C08_tdd_level_swap_handles_vars.
+
+Theorem C08_tdd_swaps_fold : forall sw s,
+  WF s -> s_kind s = KTdd -> Forall (fun k => S k < nlevels s) sw ->
+  let s' := fold_left level_swap_t sw s in
+  WF s' /\ s_kind s' = s_kind s /\ nlevels s' = nlevels s /\ s_handles s' = s_handles s
+  /\ s_l2v s' = replay sw (s_l2v s)
+  /\ (forall h a, tasg_ok a -> In h (s_handles s) ->
+        teval_vars s' (snd h) a = teval_vars s (snd h) a /\ exists v, teval_vars s (snd h) a = Some v).
+Proof. exact tswaps_fold. Qed.
+Print Assumptions C08_tdd_swaps_fold.
+
+Theorem C08_tdd_set_var_order_model_correct : forall s order,
+  WF s -> s_kind s = KTdd -> NoDup order -> Forall (fun v => v < nlevels s) order ->
+  let target := sort_order (nlevels s) (map (fun v => nth v (s_v2l s) 0) order) in
+  let s' := set_var_order_model_t s order in
+  WF s' /\ s_kind s' = s_kind s /\ nlevels s' = nlevels s /\ s_handles s' = s_handles s
+  /\ (forall h a, tasg_ok a -> In h (s_handles s) ->
+        teval_vars s' (snd h) a = teval_vars s (snd h) a /\ exists v, teval_vars s (snd h) a = Some v)
+  /\ (forall v, v < nlevels s -> nth v (s_v2l s') 0 = nth (nth v (s_v2l s) 0) target 0)
+  /\ length (snd (bubble_sort target)) = inv target.
+Proof. exact set_var_order_model_t_correct. Qed.
+Print Assumptions C08_tdd_set_var_order_model_correct.
+
+Theorem C08_tdd_set_var_order_model_respects : forall s order,
+  WF s -> s_kind s = KTdd -> NoDup order -> Forall (fun v => v < nlevels s) order ->
+  forall a b, a < b < length order ->
+    nth (nth a order 0) (s_v2l (set_var_order_model_t s order)) 0
+    < nth (nth b order 0) (s_v2l (set_var_order_model_t s order)) 0.
+Proof. exact set_var_order_model_t_respects. Qed.
+Print Assumptions C08_tdd_set_var_order_model_respects.
+
+Theorem C08_tdd_set_var_order_model_canonical : forall s order,
+  WF s -> s_kind s = KTdd -> NoDup order -> Forall (fun v => v < nlevels s) order ->
+  forall h1 h2, In h1 (s_handles s) -> In h2 (s_handles s) ->
+  (snd h1 = snd h2 <->
+   forall c, choice_ok (set_var_order_model_t s order) c ->
+     sem_edge (set_var_order_model_t s order) (snd h1) c = sem_edge (set_var_order_model_t s order) (snd h2) c).
+Proof. exact set_var_order_model_t_canonical. Qed.
+Print Assumptions C08_tdd_set_var_order_model_canonical.
+
+(* the hypotheses are satisfiable; on the example the loop rewrites a node one of whose children lies on the
+   lower level while two skip it, creates three nodes and removes one *)
+Theorem C08_tdd_level_swap_example :
+  WF tex_swap /\ s_kind tex_swap = KTdd /\ 1 < nlevels tex_swap
+  /\ dep_ids tex_swap 0 = [3]%positive
+  /\ (let z := level_swap_t tex_swap 0 in
+      find_node z 3 = Some (mkNode 0 [tex_e (RN 4); tex_e (RN 5); tex_e (RN 6)] 0 1)
+      /\ find_node z 4 = Some (mkNode 1 [tex_e (RN 1); tex_e (RT 1); tex_e (RN 1)] 1 0)
+      /\ find_node z 5 = Some (mkNode 1 [tex_e (RT 1); tex_e (RT 1); tex_e (RN 1)] 1 0)
+      /\ find_node z 6 = Some (mkNode 1 [tex_e (RT 0); tex_e (RT 1); tex_e (RN 1)] 1 0)
+      /\ find_node z 2 = None
+      /\ find_node z 1 = Some (mkNode 2 [tex_e (RT 2); tex_e (RT 1); tex_e (RT 0)] 2 3)
+      /\ PositiveMap.cardinal (s_nodes z) = 5
+      /\ s_v2l z = [1; 0; 2] /\ s_l2v z = [1; 0; 2])
+  /\ s_v2l (set_var_order_model_t tex_swap [2; 1; 0]) = [2; 1; 0]
+  /\ NoDup [2; 1; 0] /\ Forall (fun v => v < nlevels tex_swap) [2; 1; 0].
+Proof. exact tex_swap_all. Qed.
+Print Assumptions C08_tdd_level_swap_example.
